@@ -52,11 +52,62 @@ def gen_addr_set(rnd: random.Random, verb: str, code: str) -> tuple[str, str, st
     return (NON, NON, a)
 
 
+def packed_datetime(rnd: random.Random, seconds: bool) -> str:
+    """A packed date-time as the wire carries it (minute, hour + 3 day-of-week bits, day, month, year; a leading seconds byte
+    with the DST bit for the 7-byte form): valid and biased to the ends of every field, or - one time in five - with one
+    field one step outside its range (hour 24, minute / second 60, day 0 / 32, month 0 / 13)."""
+    y = rnd.choice((2000, 2023, 2024, 2024, 2099, rnd.randrange(1, 10000)))
+    mo = rnd.choice((1, 2, 2, 12, rnd.randrange(1, 13)))
+    leap = (y % 4 == 0 and y % 100 != 0) or y % 400 == 0
+    dim = [31, 29 if leap else 28, 31, 30, 31, 30, 31, 31, 30, 31, 30, 31][mo - 1]
+    d = rnd.choice((1, dim, dim, rnd.randrange(1, dim + 1)))
+    h = rnd.choice((0, 23, 23, rnd.randrange(24)))
+    mi = rnd.choice((0, 59, 59, rnd.randrange(60)))
+    se = rnd.choice((0, 59, 59, rnd.randrange(60)))
+    if rnd.random() < 0.2:
+        k = rnd.randrange(6)
+        if k == 0:
+            h = 24
+        elif k == 1:
+            mi = 60
+        elif k == 2:
+            se = 60
+        elif k == 3:
+            d = rnd.choice((0, dim + 1))
+        elif k == 4:
+            mo = rnd.choice((0, 13))
+        else:
+            y = 0
+    h |= rnd.choice((0, 0, 1, 7)) << 5
+    se |= rnd.choice((0, 0x80))
+    body = f"{mi:02X}{h:02X}{d:02X}{mo:02X}{y:04X}"
+    return (f"{se:02X}" + body) if seconds else body
+
+
+def with_datetime(rnd: random.Random, code: str, payload: str) -> str:
+    """The payloads that carry a date-time: put a structured one in (and the mode byte that makes the decoder read it)."""
+    if code == "2349" and len(payload) == 26:
+        return payload[:6] + "04" + "FFFFFF" + packed_datetime(rnd, False)
+    if code == "1F41" and len(payload) == 24:
+        return payload[:4] + "04" + "FFFFFF" + packed_datetime(rnd, False)
+    if code == "2E04" and len(payload) == 16:
+        return rnd.choice(("02", "03", "04", "07", payload[:2])) + packed_datetime(rnd, False) + "01"
+    if code == "313F" and len(payload) == 18:
+        return payload[:4] + packed_datetime(rnd, True)
+    return payload
+
+
 def gen_schema_frame(rnd: random.Random, pairs, extreme: bool = False) -> str | None:
     code, verb, pat = rnd.choice(pairs)
     payload = regen.gen_payload(pat, rnd, extreme)
     if payload is None:
         return None
+    if code in ("2349", "1F41", "2E04", "313F") and rnd.random() < 0.6:
+        import re
+
+        p2 = with_datetime(rnd, code, payload)
+        if re.match(pat, p2):
+            payload = p2
     a0, a1, a2 = gen_addr_set(rnd, verb, code)
     seqn = "---" if rnd.random() < 0.85 else f"{rnd.randrange(256):03d}"
     return f"{verb} {seqn} {a0} {a1} {a2} {code} {len(payload) // 2:03d} {payload}"
